@@ -609,7 +609,7 @@ func (s *spSim) tagHistory(e *spExp, before map[string]string, quotaBefore int64
 	case !e.acts:
 	case e.mode == "cpuset-none" || e.mode == "cpuset-static":
 		if len(e.elig) == 0 {
-			r.Tag("no-eligible-cpu")
+			// no CPU is eligible: nothing can be derived (see checkRound); no recorded defect is attached to this history any more
 			return
 		}
 		if e.mode == "cpuset-none" {
@@ -723,6 +723,14 @@ func (s *spSim) checkRound(e *spExp, before, after map[string]string, quotaBefor
 		return // the agent could not read its own previous state this round
 	}
 	applied := false
+	if (e.mode == "cpuset-none" || e.mode == "cpuset-static") && len(e.elig) == 0 {
+		// Every CPU is LSE-owned, node-reserved or system-QoS exclusive. A BE cgroup cannot have an empty cpuset, so the
+		// exclusion and size clauses are unsatisfiable for this round: the statement only demands that the agent does not
+		// crash (a panic in suppressBECPU above is still reported) and whatever it did write was checked in step 1.
+		// Nothing is carried over: the next round with an eligible CPU is checked in full against the files as they are.
+		r.Probe("skip:no-eligible-cpu-round")
+		return
+	}
 	switch e.mode {
 	case "cpuset-none":
 		if _, ok := after[root]; ok && !failed(root) {
